@@ -255,6 +255,16 @@ def check_payload(p):
         bad.append(("receiver acknowledges each good packet with '+'", t.sent))
     if acks != ["-", "+"]:
         bad.append(("acknowledgement bytes between packets reach the ack queue", acks))
+    # back-to-back: three packets with nothing in between, then a good packet directly after a corrupted one
+    h, t, msgs, acks = _mk_handler()
+    _feed(h, (wire + RspHandler.rsp_pack("ok") + wire).encode("ascii"))
+    if msgs != [p, "ok", p] or t.sent != [b"+", b"+", b"+"]:
+        bad.append(("three packets sent back to back are each delivered once, in order, and acknowledged", (msgs, t.sent)))
+    h, t, msgs, acks = _mk_handler()
+    badwire = wire[:-2] + "%02X" % ((int(wire[-2:], 16) + 1) % 256)
+    _feed(h, (badwire + wire).encode("ascii"))
+    if msgs != [p] or t.sent != [b"-", b"+"]:
+        bad.append(("a good packet directly after a corrupted one is delivered (nack, then ack)", (msgs, t.sent)))
     # corrupted checksum: nack, nothing delivered
     h, t, msgs, acks = _mk_handler()
     crc = (int(wire[-2:], 16) + 1) % 256
